@@ -411,3 +411,24 @@ def replay(failure):
 
 def rerun(doc):
     return _try([tuple(x) for x in doc["ranges"]])
+
+
+SWEEP_DOC = ("every sequence of 1..2 takes with bounds in {absent,1,2,3,5,9} and a sample of 3-take sequences, plus the i64 extremes: PRQL compiled by the "
+             "real prqlc for sql.sqlite, executed on SQLite over a 12-row numbered table, compared with the oracle `selected`")
+
+
+def sweep():
+    import itertools
+    vals = [None, 1, 2, 3, 5, 9]
+    singles = [(a, b) for a in vals for b in vals if not (a is None and b is None)]
+    seqs = [[(9223372036854775807, None), (3, None)], [(2, None), (9223372036854775807, None)], [(None, 9223372036854775807), (2, 9223372036854775807)]]
+    seqs += [[s] for s in singles] + [list(p) for p in itertools.product(singles, repeat=2)]
+    seqs += [list(p) for i, p in enumerate(itertools.product(singles, repeat=3)) if i % 97 == 0]
+    out = []
+    for rs in seqs:
+        r = _try(rs)
+        r.update(obligation="take_range.TR1", replay_kind="take_ranges", ranges=[list(x) for x in rs])
+        if r["failing"] and isinstance(r.get("observed"), str) and "PANIC" in r["observed"]:
+            r["obligation"] = "take_range.range_of_ranges.safety"
+        out.append(r)
+    return out
